@@ -17,6 +17,12 @@ long cjv_case_id = -1;
 long cjv_op_idx = -1;
 const char *cjv_cur_call;
 volatile int cjv_in_lib;
+int cjv_errno_preset;
+int cjv_truthy(void)
+{
+    static const int v[8] = { 1, 2, 1, -1, 1, 256, 1, 0x40000000 };
+    return v[(unsigned long)(cjv_case_id * 3 + cjv_op_idx) % 8];
+}
 volatile int cjv_walking;
 long cjv_violations;
 
